@@ -15,7 +15,7 @@
     requests / in-flight pairs discarded by a flush; [g_ans] answers. *)
 From Coq Require Import Permutation.
 From VLib Require Import Akita ListX.
-From VMem Require Import AddrTrans AddrTransProofs AddrTransLive.
+From VMem Require Import AddrTrans AddrTransProofs AddrTransLive AddrTransSleep.
 Open Scope N_scope.
 
 (** Accounting.  The requests taken by the translator are, as a multiset, exactly:
@@ -301,6 +301,35 @@ Proof.
   subst a. discriminate.
 Qed.
 Print Assumptions at_restart_without_discard_refuted.
+
+(** Sleep safety.  The event engine stops ticking a component whose Tick reports no
+    progress.  For every state (reachable or not): the state left by a tick that
+    reported no progress (and did not panic) is a fixpoint of [tick] — another tick
+    changes nothing and reports no progress — and differs from the state before at
+    most in the transaction table ([only_txs]: the done-mark set by parseTranslation
+    before a refused send).  So nothing is left behind a sleeping translator: only a
+    delivery or a retrieval (both wake the component) can enable further work. *)
+Theorem at_sleep_fixpoint : forall s,
+  snd (tick s) = false -> crashed (fst (tick s)) = false ->
+  tick (fst (tick s)) = (fst (tick s), false) /\ only_txs s (fst (tick s)).
+Proof. exact tick_sleep_fix. Qed.
+Print Assumptions at_sleep_fixpoint.
+
+Theorem at_no_progress_stays : forall s,
+  snd (tick s) = false -> crashed (fst (tick s)) = false ->
+  snd (tick (fst (tick s))) = false /\ fst (tick (fst (tick s))) = fst (tick s).
+Proof. exact no_progress_stays. Qed.
+Print Assumptions at_no_progress_stays.
+
+(** The full-strength statement "no progress implies nothing changed" is false of the
+    code: a translation reply whose forward is refused by the full bottom port marks
+    its transaction done (addresstranslator.go:210-211) and the tick reports false. *)
+Theorem at_tick_state_preserving_refuted :
+  exists c evs, let s := run (init c) evs in
+    snd (tick s) = false /\ crashed (fst (tick s)) = false /\ fst (tick s) <> s /\
+    map is_done (txs s) = [false] /\ map is_done (txs (fst (tick s))) = [true].
+Proof. exact tick_state_preserving_refuted. Qed.
+Print Assumptions at_tick_state_preserving_refuted.
 
 (** Back-pressure: the outgoing buffers never exceed their capacity. *)
 Theorem at_capacity : forall c evs,
